@@ -284,3 +284,14 @@ Proof. revert b. apply byte_sweep_bool. vm_compute. reflexivity. Qed.
 
 Ltac flags b H := rewrite ?(flag128 b H), ?(flag64 b H), ?(flag32 b H), ?(flag16 b H), ?(flag8 b H), ?(flag4 b H), ?(flag2 b H), ?(flag1 b H).
 
+
+(* ---------- other single-byte fields ---------- *)
+
+Lemma byte_shr6 b : byte_ok b -> Z.shiftr b 6 = bitsf [b] 0 2.
+Proof. revert b. apply byte_sweep_Z. vm_compute. reflexivity. Qed.
+Lemma byte_shr6_and3 b : byte_ok b -> Z.land (Z.shiftr b 6) 3 = bitsf [b] 0 2.
+Proof. revert b. apply byte_sweep_Z. vm_compute. reflexivity. Qed.
+Lemma byte_shr4_and3 b : byte_ok b -> Z.land (Z.shiftr b 4) 3 = bitsf [b] 2 2.
+Proof. revert b. apply byte_sweep_Z. vm_compute. reflexivity. Qed.
+Lemma byte_and127 b : byte_ok b -> Z.land b 127 = bitsf [b] 1 7.
+Proof. revert b. apply byte_sweep_Z. vm_compute. reflexivity. Qed.
